@@ -18,6 +18,12 @@ CLAIMED = {
          'write_T (write mode) / read_T (read mode) slots are assigned; for every rejected class no success return is feasible (open-time gate); enumeration '
          'tables distinct/named, simple formats accepted, every major usable, getter indices inside the tables. Run-time acceptance of frames and identical re-open are not decided.',
          'partial evaluation (constant propagation + case split) over clang CFG with interprocedural feasible-path exploration; table extraction'),
+ 'C19': ('DESIGN.md §4 C19',
+         'Complete inventory of all 66 non-const static-storage objects of the library units against a frozen, reasoned table (read-only tables never written or passed '
+         'where they could be written; capability caches written before every read; log scratch buffers rewritten before use; PRNG state confined; diagnostics read only on '
+         'NULL-handle branches); descriptor fields reset to -1 after every raw close; no pointer stored into static storage. Shared mutable state is the only in-process '
+         'channel between handles in single-threaded use, so these are necessary conditions; interleaving semantics themselves are not decided.',
+         'whole-program inventory + effect summaries + must-precede path rules over clang AST/CFG'),
 }
 REASONS = {}
 DEFAULT_REASON = 'check not built yet (work in progress); see DESIGN.md'
